@@ -92,6 +92,7 @@ struct E3 : Engine {
 		res.counters["rw_contended"] = (long long)simk::stats().rw_contended; res.counters["mutex_contended"] = (long long)simk::stats().mutex_contended;
 		res.counters["threads"] = (long long)nthreads; res.counters["ops"] = (long long)hist.size();
 		res.counters[std::string("strategy_") + (sp.strategy == 0 ? "random" : sp.strategy == 1 ? "pct" : "run_to_block")] = 1;
+		res.counters["sim_seconds"] = (long long)((simk::now_us() - sp.start_time_s*1000000LL)/1000000);
 		simk::end();
 		if(hist.size() > 40) hist.resize(40);
 		for(size_t i=0;i<hist.size();i++) for(size_t j=i+1;j<hist.size();j++) if(hist[i].thread != hist[j].thread && hist[i].inv < hist[j].ret && hist[j].inv < hist[i].ret && hist[i].key == hist[j].key) overlap++;
